@@ -394,6 +394,8 @@ int main(int argc, char **argv)
 
 	    vt_seed(&rng, seed * 1000003ull + (uint64_t)c);
 	    cf_nnodes = 0;
+	    cf_extra_reset();
+	    cf_pairs = (c % 3 == 2);	/* concatenations of two pool strings */
 	    plain = (c % 5 == 0);
 	    depth = 1 + vt_below(&rng, 6);
 	    budget = 6 + vt_below(&rng, 30);
